@@ -1388,6 +1388,9 @@ class Interp(object):
             if isinstance(obj, (OpV, SpaceV)):
                 obj.attrs[t.attr] = v
                 return
+            if isinstance(obj, Func) and t.attr in ('__doc__', '__name__',
+                                                    '__qualname__'):
+                return               # documentation of a generated function
             raise Undecided('attribute store on %r' % (obj,))
         if isinstance(t, ast.Subscript):
             obj = self.ev(t.value, scope, func)
